@@ -151,6 +151,7 @@ static int sig_quiescent(void) {
       if (o[i].kind == OP_WAIT && o[i].resp) returned++;
     if (g_woken > returned) fmc_fail("multi signal: raises reported waking %d fibers but only %d waits returned", g_woken, returned);
     if (pending && msig.data.head == FIBER_MULTI_SIGNAL_RAISED) fmc_fail("multi signal: a waiter is blocked while the signal is in the raised state");
+    if (!pending && msig.data.head && msig.data.head != FIBER_MULTI_SIGNAL_RAISED) fmc_fail("multi signal: nobody is waiting but the waiter list is not empty (a fiber that is not waiting is on the list)");
   }
   fmc_history_obs();
   fmc_end();
